@@ -307,7 +307,7 @@ EDGE_TEXTS = [
 
 def gen_cases(ctx, types):
     rng = ctx.rng
-    n = ctx.scale(30000, 400000)
+    n = ctx.scale(60000, 1200000)
     tys = [(t, parse_ty(t)) for t in types]
     cases = []
 
